@@ -907,7 +907,9 @@ def errors_are_fatal(ctx: T.Any, rule: str, fq: str, floor: int) -> None:
             continue
         if unparse(n.ast.value.func) in ("logger.error", "logger.critical"):
             sites.append(n)
-    ctx.floor(rule, f"error reports in {fq}", len(sites), floor)
+    # a rejection is an error report or a `raise` (a handler that lets the error go on rejects without a report of its own)
+    raises = [n for n in cfg.nodes if n.kind == "stmt" and n.id in live and isinstance(n.ast, ast.Raise)]
+    ctx.floor(rule, f"error reports in {fq}", len(sites) + len(raises), floor)
     for n in sites:
         after = cfg.reachable(start=n.id)
         if cfg.exit in after:
